@@ -74,7 +74,7 @@ def main():
                         ' (%d theorem(s) %s_* in lean/FCA/Props/{%s}, axioms audited on every run; *Gen files are stated over code regenerated from the current source)' % (ntheorems, pid, fnames),
                 'design_ref': ref,
             },
-            'level_note': note + '; trusted base: Lean 4.33 kernel, axioms propext/Classical.choice/Quot.sound only, Mathlib modules, Lean compiler for the driver, harness + extract.py, dependency contracts (bitsets, CPython, graphviz)',
+            'level_note': note + '; trusted base: Lean 4.33 kernel, axioms propext/Classical.choice/Quot.sound only, Mathlib modules, Lean compiler for the driver, harness + extract.py + extract2.py (source-to-Lean translators and their readings, DESIGN.md section 5), dependency contracts (bitsets, CPython, graphviz)',
             'technique': 'Lean 4 machine-checked proof about an executable model' + (' (theorems pending)' if not proved else '') +
                          ' + correspondence check model vs implementation over a line protocol',
         })
